@@ -45,11 +45,36 @@ pub(crate) fn lock_ids(db: &Database) -> [usize; 4] {
 
 /// Stub for `Database::sync_bg_tasks` (background tasks are outside every claim; the real body
 /// drains a Vec<JoinHandle> whose drop glue CBMC cannot bound).
-pub(crate) fn sync_bg_tasks_stub(_db: &Database) -> Result<()> {
+pub fn sync_bg_tasks_stub(_db: &Database) -> Result<()> {
     Ok(())
 }
 
 /// Public (Kani build only) helper for vecdb's storage model: a region that belongs to no database.
 pub fn api_detached_region() -> Region {
     crate::region::verif_region::mk_detached(0, crate::region_metadata::verif_meta::mk_meta("m", 0, 0, PAGE_SIZE, 0))
+}
+
+/// Public (Kani build only): *contract mode* database for vecdb harnesses - one region at offset 0
+/// of a tiny data file backed by `buf[..cap]` (bytes really stored), reserve = cap, content length
+/// `region_len`; the allocator is cut (any layout lock acquisition is a reported bound violation).
+pub fn api_contract_db(buf: *mut u8, cap: usize, region_len: usize) -> (Database, Region) {
+    let f = &mut pfs::state().files[pfs::DATA];
+    f.buf = buf;
+    f.cap = cap;
+    f.len = cap;
+    let db = mk_db(cap, 2);
+    let r = crate::region::verif_region::mk_in_db(
+        &db, 0, crate::region_metadata::verif_meta::mk_meta("v", 0, region_len, cap, 0), (usize::MAX, 0));
+    layout_of(&db).insert_region(0, &r);
+    crate::regions::verif_regions::add(regions_of(&db), "v", &r, false);
+    anydb_verif_platform::sync::set_cut(db.0.layout.verif_id());
+    (db, r)
+}
+
+/// Cut for vecdb contract-mode harnesses: the buffered file-IO scan back-end (only taken for
+/// ranges above 1 GiB) is outside the claim; reaching it is a reported bound violation.
+pub fn open_ro_cut(_r: &Region) -> Result<File> {
+    assert!(false, "VERIF: bound exceeded: file-IO scan back-end reached");
+    anydb_verif_platform::assume(false);
+    Err(Error::RegionNotFound)
 }
